@@ -45,6 +45,12 @@ GameStateOf(g) ==
    ELSE IF DeadMaterial(p.b) THEN DRAW_NO_MATE
    ELSE IF g.rstate # ALIVE THEN g.rstate
    ELSE g.dstate
+\* Game::getHistory: the positions before the current one, back to (and including) the position before the last move made from a
+\* position... precisely: walk back from the current position while the position at hand has a non-zero half-move clock
+RECURSIVE HistLenFrom(_, _)
+HistLenFrom(g, k) == IF k = 0 \/ g.ps[k + 1].h = 0 THEN 0 ELSE 1 + HistLenFrom(g, k - 1)     \* k = moves still to take back
+HistLen(g) == HistLenFrom(g, g.cur)
+HistFirstClock(g) == IF HistLen(g) = 0 THEN -1 ELSE g.ps[g.cur + 1 - HistLen(g)].h
 HaveDrawOffer(g) == g.cur > 0 /\ g.offers[g.cur]
 
 \* make move m in the current position (truncating any redo tail); the console game normalises ep (Fixup)
